@@ -78,6 +78,7 @@ type interpreter struct {
 	mapRangers  []string
 	recordRangers bool
 	bigOrder    int
+	doms        domState
 	reProgs     map[*regexp.Regexp]*syntax.Prog
 	summOK      map[*ssa.Function]bool
 	panicStack  []string
